@@ -1028,6 +1028,61 @@ pub fn gen_request_burst(r: &mut Rng, n: usize) -> String {
     })
 }
 
+/// a request issued inside the 100 ms window after a reply whose WRITE is still blocked by back-pressure
+/// when the window closes, then the transport drains: the request must arrive whole, exactly once, and
+/// be answered (oracle-only op `loopx`: the model's writes are atomic)
+pub fn gen_blocked_window(r: &mut Rng, prop: &str, k: usize, typed: bool) -> String {
+    let sel_seed = r.next() % 1_000_000;
+    let rt = runtime(sel_seed);
+    rt.block_on(async {
+        let mut w = World::new(None, sel_seed);
+        let mut sv = SimServer::default();
+        let mut actions: Vec<String> = Vec::new();
+        async fn act(w: &mut World, sv: &mut SimServer, actions: &mut Vec<String>, a: String) {
+            let seg = w.act(&a).await;
+            actions.push(a);
+            for p in seg.split('&') {
+                if let Some(h) = p.strip_prefix("w=") {
+                    sv.feed(&unhex(h));
+                }
+            }
+        }
+        async fn drain(w: &mut World, sv: &mut SimServer, actions: &mut Vec<String>) {
+            for _ in 0..4 {
+                if sv.out.is_empty() {
+                    break;
+                }
+                let v: Vec<u8> = sv.out.drain(..).collect();
+                act(w, sv, actions, format!("d{}", hex(&v))).await;
+            }
+        }
+        act(&mut w, &mut sv, &mut actions, format!("d{}", hex(b"OK MPD 0.23.5\n"))).await;
+        act(&mut w, &mut sv, &mut actions, format!("q1:{}", cmd_spec("x", &["first".to_string()]))).await;
+        drain(&mut w, &mut sv, &mut actions).await;
+        // inside the window: the transport accepts k more bytes, then blocks
+        act(&mut w, &mut sv, &mut actions, format!("B{k}")).await;
+        if typed {
+            let names: Vec<String> = (0..5).map(|i| format!("Various Artists/Compilation/{i:02} - Song.flac")).collect();
+            act(&mut w, &mut sv, &mut actions, format!("y2:v:{}", names.iter().map(|n| hex(n.as_bytes())).collect::<Vec<_>>().join("+"))).await;
+        } else {
+            let spec: Vec<String> = (0..3).map(|j| cmd_spec("x", &[format!("blocked {j}")])).collect();
+            act(&mut w, &mut sv, &mut actions, format!("q2:{}", spec.join("+"))).await;
+        }
+        act(&mut w, &mut sv, &mut actions, format!("t{}", r.pick(&[100usize, 101, 150, 5000]))).await;
+        act(&mut w, &mut sv, &mut actions, "U".to_string()).await;
+        for _ in 0..4 {
+            drain(&mut w, &mut sv, &mut actions).await;
+            act(&mut w, &mut sv, &mut actions, "t100".to_string()).await;
+        }
+        act(&mut w, &mut sv, &mut actions, format!("q3:{}", cmd_spec("x", &["after".to_string()]))).await;
+        for _ in 0..3 {
+            drain(&mut w, &mut sv, &mut actions).await;
+            act(&mut w, &mut sv, &mut actions, "t100".to_string()).await;
+        }
+        format!("loopx.{}.{} ~ {}", prop, sel_seed, actions.join(","))
+    })
+}
+
 /// C04: the first idle reply has exactly `total` bytes (one change with a long unknown name)
 pub fn gen_sized_idle_reply(r: &mut Rng, total: usize) -> String {
     let sel_seed = r.next() % 1_000_000;
@@ -1583,6 +1638,9 @@ pub fn gen(cfg: &Cfg) -> Vec<String> {
         }
         if matches!(cfg.prop.as_str(), "C13" | "C07") && i < 2 {
             ops.push(gen_big_list(&mut r, i == 0));
+        }
+        if matches!(cfg.prop.as_str(), "C13" | "C01" | "C05") && i < 4 {
+            ops.push(gen_blocked_window(&mut r, &cfg.prop, [0usize, 3, 30, 1][i], cfg.prop == "C13"));
         }
         if matches!(cfg.prop.as_str(), "C01" | "C05") && i < 2 {
             ops.push(gen_slow_reply(&mut r, &cfg.prop));
